@@ -62,7 +62,7 @@ def correspond(ctx):
     strength = "thorough" if ctx.tier == "thorough" else "quick"
     # one process: correspondence dump + quick search (shares the Numba JIT of the grid/space helpers)
     both = ctx.run_impl("c04_impl.py", {"mode": "both", "strength": strength, "families": QUICK_FAMILIES,
-                                        "budget": 110 if strength == "quick" else 1e9}, timeout=3600)
+                                        "budget": 60 if strength == "quick" else 1e9}, timeout=3600)
     ctx.note("implementation process wall %.0fs" % (time.time() - t0))
     if both is None:
         return
@@ -114,8 +114,9 @@ def search(ctx, strength):
     if have is not None and (have[0] == strength or have[0] == "thorough"):
         res = have[1]
     else:
-        r = ctx.run_impl("c04_impl.py", {"mode": "search", "strength": strength, "families": QUICK_FAMILIES},
-                         timeout=3600)
+        # escalated search after a broken tie/proof in the quick tier: bounded (thorough tier: unbounded)
+        r = ctx.run_impl("c04_impl.py", {"mode": "search", "strength": strength, "families": QUICK_FAMILIES,
+                                         "budget": 1e9 if ctx.tier == "thorough" else 420}, timeout=3600)
         if r is None:
             return
         res = r["search"]
